@@ -931,7 +931,9 @@ func (w *jobctlWorld) monitorJobVersion() {
 	if !p.Status.StartTime.IsZero() && !p.Status.StartTime.Equal(j.Status.StartTime) {
 		w.c.Violate("C11", "startTime-stable", "startTime changed from %v to %v", p.Status.StartTime, j.Status.StartTime)
 	}
-	if pf := p.Status.Condition.Finished; pf != nil && j.DeletionTimestamp == nil && p.DeletionTimestamp == nil && !w.resultEdited && !w.staleRecreate {
+	// (outside E-OrphanVisible a Job that was finished as Killed / AdmissionError while created-but-
+	// unrecorded tasks were still invisible to the pod cache is re-opened when they are adopted)
+	if pf := p.Status.Condition.Finished; pf != nil && j.DeletionTimestamp == nil && p.DeletionTimestamp == nil && !w.resultEdited && !w.staleRecreate && !w.envelopeBroken {
 		cf := j.Status.Condition.Finished
 		if cf == nil {
 			w.c.Violate("C11", "finished-stays-finished", "finished Job became unfinished")
@@ -1432,21 +1434,36 @@ func (w *jobctlWorld) drain() {
 	}
 }
 
-// runTimersOut: quiescence means nothing is scheduled any more — every armed timer is let to
-// fire (clock moved to its deadline) and what it triggers is processed, until none is left.
+// runTimersOut: quiescence means nothing is scheduled any more and the environment has done its
+// part — every armed timer is let to fire (clock moved to its deadline), a cooperative kubelet
+// finishes terminating every pod that is being deleted, and what either triggers is processed,
+// until nothing is left to happen.
 func (w *jobctlWorld) runTimersOut() {
-	for i := 0; i < 12; i++ {
-		d := w.q.NextDeadline()
-		if d == 0 {
-			return
+	for i := 0; i < 16; i++ {
+		progressed := false
+		if d := w.q.NextDeadline(); d != 0 {
+			if step := d - w.now(); step > 0 {
+				w.clk.Step(time.Duration(step))
+				w.c.Emit(fmt.Sprintf("jc.adv %d", step), w.state())
+			}
+			progressed = true
 		}
-		if step := d - w.now(); step > 0 {
-			w.clk.Step(time.Duration(step))
-			w.c.Emit(fmt.Sprintf("jc.adv %d", step), w.state())
+		if !w.kubeletDead {
+			for _, p := range w.ownedPods() {
+				if p.DeletionTimestamp != nil {
+					w.api.Remove("pods", "ns/"+p.Name)
+					w.c.Count("jc.kubelet.gone")
+					w.c.Emit(fmt.Sprintf("jc.pod %s gone", p.Name), w.state())
+					progressed = true
+				}
+			}
+		}
+		if !progressed {
+			return
 		}
 		w.drain()
 	}
-	w.c.Count("jc.timers-still-armed-at-end")
+	w.c.Count("jc.not-quiescent-at-end")
 }
 
 func (w *jobctlWorld) settle(rounds int) {
